@@ -793,7 +793,7 @@ impl Element {
                             (ElementKind::Normal { .. }, "class") => AttrPrefixKind::ClassString,
                             (ElementKind::Normal { .. }, "style") => AttrPrefixKind::StyleString,
                             (ElementKind::Normal { .. }, x) | (ElementKind::Slot { .. }, x)
-                                if x.starts_with("data-") =>
+                                if x.starts_with("data-") && x.len() > "data-".len() =>
                             {
                                 AttrPrefixKind::DataHyphen
                             }
